@@ -156,6 +156,10 @@ def unit_include(eng, settles, kind):
             rec.update(start=start, lb=link_base_)
             if settles:
                 eng_.call(eng_.getattr(link_base_["promise"], "settle"), [K], {})
+            if kind == "raise":
+                # a statement of the included file was refused: the error was reported and RecoverableError propagates (labels defined before it exist already)
+                eng_.path.events.append(("error", "value-out-of-bounds"))
+                raise PyRaise(Exc("RecoverableError"))
             c, B = chunk_contract(eng_, "INC", kind)
             rec["B"] = B
             return c
@@ -166,6 +170,11 @@ def unit_include(eng, settles, kind):
     def post(eng, o):
         I = eng.I
         rec = I["rec"]
+        if kind == "raise":
+            p = rec["lb"]["promise"]
+            eng.prove("a-refused-statement-inside-the-included-file-propagates-as-RecoverableError", o[0] == "raise" and o[1].cls == "RecoverableError")
+            eng.prove("the-include's-link-base-is-settled-on-every-exit(labels of the included file stay resolvable)", p.attrs["settled"] is True)
+            return
         eng.prove("no-exception", o[0] == "return")
         if o[0] != "return":
             return
